@@ -195,13 +195,9 @@ STREAM_TARGETS = [
     ("flush", "StripStream", "g_ss_flush", {"trait": "Write"}),
     ("write_all", "StripStream", "g_ss_write_all", {"trait": "Write"}),
     ("write_fmt", "StripStream", "g_ss_write_fmt", {"trait": "Write"}),
+    ("write_vectored", "StripStream", "g_ss_write_vectored", {"trait": "Write"}),
 ]
 
-G_SS_WRITE_VECTORED = """(* StripStream::write_vectored -- NOT translated (iterator-adapter plumbing over IoSlice, token-pinned):
-   `bufs.iter().find(|b| !b.is_empty()).map(|b| &**b).unwrap_or(&[][..])`, then the translated `self.write(buf)` *)
-Definition g_ss_write_vectored (ss1 : sstream) (bufs : (list (list N))) : option (sstream * (N + ekind)) :=
-  g_ss_write ss1 (first_nonempty bufs).
-"""
 
 
 def check_enum(src, name, variants, cfg):
@@ -226,12 +222,8 @@ def stream_shapes(strip_src):
     """shapes of the functions Generated/StreamFn.v defines (the text is discarded: StreamFn writes it)"""
     shapes = {}
     v = dict(gen_fn_stream.VOCAB)
-    v["opaque"] = {"StripStream::write_vectored": gen_fn_stream.PIN_WRITE_VECTORED}
     translate(strip_src, v, STREAM_TARGETS, "", "", shapes)
-    out = {k: dict(s) for k, s in shapes.items() if k.startswith("StripStream::")}
-    out["StripStream::write_vectored"] = dict(out["StripStream::write"], coq="g_ss_write_vectored",
-                                              params=[("in", ("list", BYTES))])
-    return out
+    return {k: dict(s) for k, s in shapes.items() if k.startswith("StripStream::")}
 
 
 # =====================================================================================================
@@ -315,7 +307,7 @@ VL_STRIP = {
     "drops": True,
     "place_writers": {"as_locked_write": pw_as_locked_write},
     "result": {"err": "ekind"},
-    "type_alias": dict(LOCK_ALIASES),
+    "type_alias": dict(LOCK_ALIASES, IoSlice=BYTES),
     "enums": {},
     "structs": {
         "LRaw": STRUCT_LRAW,
@@ -328,9 +320,10 @@ VL_STRIP = {
     "consts": {},
     "param_types": {"args": ("list", BYTES)},
     "fns": {},
-    "methods": dict(GUARD_METHODS),
+    "methods": dict(GUARD_METHODS, **{}),
     "opaque": {},
 }
+VL_STRIP["methods"].update({("list", "find"): gen_fn_stream.m_list_find, ("opt", "map"): gen_fn_stream.m_opt_map})
 
 ENUM_LINNER = {"coq": "lsinner", "var": "i", "variants": {},
                "payload": {"PassThrough": ("LSIPass", [LRAW]), "Strip": ("LSIStrip", [SSTREAM])}}
@@ -360,17 +353,11 @@ VL_AUTO = {
     "opaque": {},
 }
 
-GL_SS_WRITE_VECTORED = """(* StripStream::write_vectored over a locked raw stream -- NOT translated (token-pinned, see above): it takes no lock
-   itself and delegates once to `self.write(buf)` *)
-Definition gl_ss_write_vectored (ss1 : lsstream) (bufs : (list (list N))) : option (lsstream * (N + ekind)) :=
-  gl_ss_write ss1 (first_nonempty bufs).
-"""
 
 
 def lock_translation(strip, auto):
     shapes = {}
     v = dict(gen_fn_stream.VOCAB)
-    v["opaque"] = {"StripStream::write_vectored": gen_fn_stream.PIN_WRITE_VECTORED}
     translate(strip, v, STREAM_TARGETS, "", "", shapes)
     # the free functions only: the methods are translated again below, over the locked stream
     shapes = {k: dict(s) for k, s in shapes.items() if "::" not in k}
@@ -381,10 +368,9 @@ def lock_translation(strip, auto):
         ("flush", "StripStream", "gl_ss_flush", wr),
         ("write_all", "StripStream", "gl_ss_write_all", wr),
         ("write_fmt", "StripStream", "gl_ss_write_fmt", wr),
+        # takes no lock itself: picks the first non-empty buffer and delegates once to `self.write(buf)`
+        ("write_vectored", "StripStream", "gl_ss_write_vectored", wr),
     ], "", "", shapes))
-    out.append(GL_SS_WRITE_VECTORED)
-    shapes["StripStream::write_vectored"] = dict(shapes["StripStream::write"], coq="gl_ss_write_vectored",
-                                                 params=[("in", ("list", BYTES))])
     out.append(translate(auto, VL_AUTO, [
         ("write", "AutoStream", "gl_as_write", wr),
         ("write_vectored", "AutoStream", "gl_as_write_vectored", wr),
@@ -405,7 +391,7 @@ def register(generators, gm):
             gen_fn_choice.check_enum(cc, "ColorChoice", CHOICES, "colorchoice")
             check_enum(auto, "StreamInner", [("PassThrough", 1), ("Strip", 1)], CFG)
             shapes = stream_shapes(strip)
-            out = [HEADER, REQ, "", G_SS_WRITE_VECTORED]
+            out = [HEADER, REQ, ""]
             out.append(translate(strip, V_STRIP, [
                 ("new", "StripStream", "g_ss_new", {}),
                 ("into_inner", "StripStream", "g_ss_into_inner", {}),
